@@ -99,7 +99,8 @@ def ctvOfFull (lv : Level) (c : CtFull) : CtV :=
   let kn := lv.moduli.length * lv.n
   { pid := c.pid, size := c.size, ntt := c.ntt, scale := c.scale, cf := c.cf,
     seeded := (c.size == 2 && c.data.getD kn 0 == seedFlag), data := c.data,
-    poly := fun i => (c.data.drop (i * kn)).take kn, cms := lv.moduli.length, deg := lv.n }
+    poly := fun i => (c.data.drop (i * kn)).take kn, comp := fun i j => (c.data.drop (i * kn + j * lv.n)).take lv.n,
+    cms := lv.moduli.length, deg := lv.n }
 
 theorem gc_sent_view (lv : Level) (c : CtFull) : fullSentV (ctvOfFull lv c) = fullSent lv c := by
   unfold fullSentV ctvOfFull fullSent
